@@ -14,7 +14,7 @@ func init() {
 		Name:     "C06",
 		Property: "C06",
 		Gen:      func(g *Gen) *Plan { return swarm(g, genC06(g), 0.2, 0) },
-		Oracles:  []func(o *Outcome) []Violation{respOracle("C06", "wrong-key", "wrong-body", "unattributable-response"), livenessOracle("C06")},
+		Oracles:  []func(o *Outcome) []Violation{respOracle("C06", "wrong-key", "wrong-body", "unattributable-response", "origin-asked-for-other-url"), livenessOracle("C06")},
 		NonTrivial: func(o *Outcome) bool {
 			return o.Hist.Probes["evictions"] > 0 && o.Hist.Probes["hits-checked"] > 0
 		},
